@@ -509,8 +509,8 @@ func (c *fileCtx) mutexPath(sel *ast.SelectorExpr) (expr string, isPtr bool, kin
 		return
 	}
 	kind = named.Obj().Name()
-	if kind != "Mutex" && kind != "RWMutex" && kind != "Pool" {
-		if kind == "Cond" || kind == "WaitGroup" || kind == "Once" || kind == "Map" {
+	if kind != "Mutex" && kind != "RWMutex" && kind != "Pool" && kind != "WaitGroup" && kind != "Once" {
+		if kind == "Cond" || kind == "Map" {
 			c.unmodelled(sel.Pos(), "sync."+kind+"."+sel.Sel.Name)
 		}
 		return "", false, "", false
@@ -589,6 +589,14 @@ func (c *fileCtx) call(n *ast.CallExpr) {
 		fn = "PoolGet"
 	case "Pool.Put":
 		fn = "PoolPut"
+	case "WaitGroup.Add":
+		fn = "WGAdd"
+	case "WaitGroup.Done":
+		fn = "WGDone"
+	case "WaitGroup.Wait":
+		fn = "WGWait"
+	case "Once.Do":
+		fn = "OnceDo"
 	default:
 		return
 	}
@@ -596,13 +604,17 @@ func (c *fileCtx) call(n *ast.CallExpr) {
 	if isPtr {
 		arg = expr
 	}
-	if fn == "PoolPut" {
+	if fn == "PoolPut" || fn == "WGAdd" || fn == "OnceDo" {
 		if len(n.Args) != 1 {
 			return
 		}
 		// Replace only the callee part: x.Put(  ->  __simrt.PoolPut(&x,
-		c.edits = append(c.edits, edit{c.off(n.Pos()), c.off(n.Lparen) + 1, fmt.Sprintf("__simrt.PoolPut(%s, ", arg)})
-		sum.Pools++
+		c.edits = append(c.edits, edit{c.off(n.Pos()), c.off(n.Lparen) + 1, fmt.Sprintf("__simrt.%s(%s, ", fn, arg)})
+		if fn == "PoolPut" {
+			sum.Pools++
+		} else {
+			sum.Locks++
+		}
 		return
 	}
 	if len(n.Args) != 0 {
@@ -624,5 +636,28 @@ func (c *fileCtx) goStmt(n *ast.GoStmt) {
 		sum.GoStmts++
 		return
 	}
-	c.unmodelled(n.Pos(), "go statement with arguments")
+	if !*flagGo {
+		return
+	}
+	// go f(a, b)  ->  { __gf := f; __ga0 := a; __ga1 := b; __simrt.Go(func() { __gf(__ga0, __ga1) }) }
+	// (function value and arguments are evaluated at the go statement, as Go
+	// does). Done with disjoint splices around the operand texts, so rewrites
+	// inside the operands (e.g. yields in a function literal) stay intact.
+	id := nextSite
+	nextSite++
+	call := n.Call
+	c.edits = append(c.edits, edit{c.off(n.Go), c.off(call.Fun.Pos()), fmt.Sprintf("{ __gf%d := ", id)})
+	var args []string
+	prevEnd := call.Fun.End()
+	for i, a := range call.Args {
+		c.edits = append(c.edits, edit{c.off(prevEnd), c.off(a.Pos()), fmt.Sprintf("; __ga%d_%d := ", id, i)})
+		args = append(args, fmt.Sprintf("__ga%d_%d", id, i))
+		prevEnd = a.End()
+	}
+	ell := ""
+	if call.Ellipsis.IsValid() {
+		ell = "..."
+	}
+	c.edits = append(c.edits, edit{c.off(prevEnd), c.off(n.End()), fmt.Sprintf("; __simrt.Go(func() { __gf%d(%s%s) }) }", id, strings.Join(args, ", "), ell)})
+	sum.GoStmts++
 }
